@@ -1,6 +1,6 @@
 (* C10 — The validator accepts exactly the structurally well-formed documents (rules validator; the part proved). *)
 From CE Require Import Model.Rules Model.RulesSpec Proofs.RulesInvariants Proofs.RulesStructure Proofs.RulesLimits
-  Proofs.RulesMarkers Proofs.RulesDocument Proofs.RulesComplete.
+  Proofs.RulesMarkers Proofs.RulesDocument Proofs.RulesComplete Proofs.RulesSound.
 Open Scope N_scope.
 
 (* (a) A rejection is permanent and is reported at the first event that cannot be accepted. *)
@@ -60,8 +60,9 @@ Theorem C10_stack_structure : forall cfg es c, state_after cfg es = Some c -> WF
 Proof. exact state_WF. Qed.
 Print Assumptions C10_stack_structure.
 
-(* (c) Completeness on the tree grammar of Model/RulesSpec.v ([doc], [wf_doc], [flatten_doc]): without chunked
-   arrays, media and custom types, and without markers / references in map-key position.  Every well-formed
+(* (c) Completeness on the tree grammar of Model/RulesSpec.v ([doc], [wf_doc], [flatten_doc]): without arrays
+   delivered in chunks and without markers / references in map-key position; media and custom arrays delivered in
+   one event are leaves (valid media type / custom type code).  Every well-formed
    document tree - record types first; one top-level value (not a reference); maps with keyable pairwise-distinct
    keys; edges with three components and non-null source and destination; nodes with a value; records of the
    declared arity; markers (padding allowed after them) on scalars, markable arrays and containers, nested markers
@@ -76,17 +77,50 @@ Theorem C10_wf_documents_accepted :
 Proof. exact wf_doc_accepted. Qed.
 Print Assumptions C10_wf_documents_accepted.
 
-(* The full statement on the marker-free part of the fragment, kept for reference: such an event list is accepted
-   exactly when it is the flattening of a well-formed document within the limits.  Proved: right to left (above,
-   on the larger grammar).  Not proved: left to right (the ghost-tree construction); in its place the invariants (b). *)
-Definition C10_fragment_exact_full : Prop :=
+(* (d) Soundness on the grammar's alphabet ([in_grammar]: every event except those of arrays delivered in chunks -
+   begin / chunk / data events), for event lists whose markers and references all stand
+   where a value may start ([value_markers_only]: none where the validator expects a map key): a complete
+   document the validator accepts is the flattening of a well-formed document tree, whose height is within the
+   depth limit. *)
+Theorem C10_accepted_documents_wf :
+  forall cfg es, in_grammar es = true -> value_markers_only cfg es -> accepts_document cfg es = true ->
+    exists d, wf_doc cfg d = true /\ flatten_doc cfg d = es /\ doc_height d <= max_container_depth cfg.
+Proof. exact accepted_is_wf_grammar. Qed.
+Print Assumptions C10_accepted_documents_wf.
+
+(* (c) + (d): on these event lists the validator accepts exactly the well-formed documents within the limits. *)
+Theorem C10_grammar_exact :
+  forall cfg es, in_grammar es = true -> value_markers_only cfg es ->
+    (accepts_document cfg es = true <->
+     exists d, wf_doc cfg d = true /\ flatten_doc cfg d = es /\
+               object_usage es <= max_object_count cfg /\ doc_height d <= max_container_depth cfg /\
+               marker_usage es <= max_local_reference_count cfg).
+Proof. exact grammar_exact. Qed.
+Print Assumptions C10_grammar_exact.
+
+(* the same without markers and references ([in_fragment]), where no side condition is left *)
+Theorem C10_fragment_exact :
   forall cfg es, in_fragment es = true ->
     (accepts_document cfg es = true <->
      exists d, wf_doc cfg d = true /\ flatten_doc cfg d = es /\
-               object_usage es <= max_object_count cfg /\ doc_height d <= max_container_depth cfg).
+               object_usage es <= max_object_count cfg /\ doc_height d <= max_container_depth cfg /\
+               marker_usage es <= max_local_reference_count cfg).
+Proof. exact fragment_exact. Qed.
+Print Assumptions C10_fragment_exact.
+
+(* What is outside, kept for reference: the statement without the two hypotheses.  It is NOT a theorem of this
+   development and does not hold for the grammar as it stands: arrays delivered in chunks, and markers /
+   references in map-key position, are accepted by the validator but have no tree in [doc]; the grammar would have
+   to be extended to them first. *)
+Definition C10_fragment_exact_full : Prop :=
+  forall cfg es,
+    (accepts_document cfg es = true <->
+     exists d, wf_doc cfg d = true /\ flatten_doc cfg d = es /\
+               object_usage es <= max_object_count cfg /\ doc_height d <= max_container_depth cfg /\
+               marker_usage es <= max_local_reference_count cfg).
 
 Definition C10_tree : doc :=
-  {| d_pre := [TopTrivia TPad; TopRecType [114] [EStringArray AT_String [120]; EPosInt 2] [TPad]];
+  {| d_pre := [TopTrivia TPad; TopRecType [114] [([], EStringArray AT_String [120]); ([TPad], EPosInt 2)] [TPad]];
      d_top := VT (TComment false [104;105])
                 (VMarked [97] 1
                   (VMap [([TPad], EPosInt 1, VRecord [114] [VLeaf ENull; VT TPad (VMarked [98] 0 (VLeaf (EFloat 0)))] []);
@@ -98,6 +132,26 @@ Example C10_tree_wf : wf_doc default_rcfg C10_tree = true.
 Proof. vm_compute. reflexivity. Qed.
 Example C10_tree_accepted : accepts_document default_rcfg (flatten_doc default_rcfg C10_tree) = true.
 Proof. vm_compute. reflexivity. Qed.
+(* the side condition of (d) can be decided along the run; the example tree satisfies it *)
+Theorem C10_value_markers_decidable :
+  forall cfg es, value_markers_onlyb cfg es = true -> value_markers_only cfg es.
+Proof. exact value_markers_onlyb_sound. Qed.
+Print Assumptions C10_value_markers_decidable.
+Example C10_tree_in_grammar :
+  in_grammar (flatten_doc default_rcfg C10_tree) = true /\ value_markers_onlyb default_rcfg (flatten_doc default_rcfg C10_tree) = true.
+Proof. vm_compute. split; reflexivity. Qed.
+(* media and custom arrays as leaves (also marked); a marker where a map key is expected is outside *)
+Example C10_media_custom :
+  let d := {| d_pre := []; d_top := VList [VLeaf (EMedia [97;47;98] [1;2]); VMarked [109] 0 (VLeaf (ECustomBin 7 [1]));
+                                           VLeaf (ECustomText 7 [104;105])] [] |} in
+  wf_doc default_rcfg d = true /\ accepts_document default_rcfg (flatten_doc default_rcfg d) = true /\
+  in_grammar (flatten_doc default_rcfg d) = true /\ value_markers_onlyb default_rcfg (flatten_doc default_rcfg d) = true /\
+  wf_doc default_rcfg {| d_pre := []; d_top := VLeaf (EMedia [97] [1]) |} = false /\
+  accepts_document default_rcfg (flatten_doc default_rcfg {| d_pre := []; d_top := VLeaf (EMedia [97] [1]) |}) = false /\
+  value_markers_onlyb default_rcfg [EBeginDoc; EVersion 0; EMap; EMarker [97]; ETrue; ENull; EEnd; EEndDoc] = false /\
+  accepts_document default_rcfg [EBeginDoc; EVersion 0; EMap; EMarker [97]; ETrue; ENull; EEnd; EEndDoc] = true.
+Proof. vm_compute. repeat split; reflexivity. Qed.
+
 Example C10_tree_bad :
   wf_doc default_rcfg {| d_pre := []; d_top := VEdge (VLeaf ENull) (VLeaf ENull) (VLeaf ETrue) [] |} = false /\
   accepts_document default_rcfg (flatten_doc default_rcfg {| d_pre := []; d_top := VEdge (VLeaf ENull) (VLeaf ENull) (VLeaf ETrue) [] |}) = false /\
